@@ -302,6 +302,22 @@ def h_flatten_extends(eng):
     if own_wins and nbases:
         eng.prove("extends.own_declaration_wins_over_inherited", z3.BoolVal(vals.get("b0") is me.fields["symbols"].vals[1]))
     eng.prove("extends.result_is_a_new_instance_class", z3.BoolVal(out is not me and out.cls.name == "InstanceClass" and out.fields["symbols"] is not me.fields["symbols"]))
+    # (P, carried across two sites) build_instance_tree instantiates nested classes first and later runs flatten_extends AGAIN on a deep
+    # copy of such an already-extended instance class (one per component of that type): "each inherited equation exactly once" survives
+    # only if an instance class inherits nothing further, i.e. the result carries no extends clause of its own
+    ext_after = out.fields.get("extends")
+    eng.prove("extends.result_inherits_nothing_further", z3.BoolVal(isinstance(ext_after, VList) and len(ext_after.items) == 0))
+    # ... and then a second application on the result is the identity on equations and symbols (checked by running the real function again)
+    state["outer"] = True
+    n_calls = len(calls)
+    try:
+        again = eng.call(f, [out], {})
+    except PyRaise as e:
+        eng.prove("extends.second_application_adds_nothing", False, exc=repr(e.exc))
+        return
+    eng.prove("extends.second_application_adds_nothing", z3.BoolVal(
+        len(calls) == n_calls and [id(e) for e in again.fields["equations"].items] == [id(e) for e in out.fields["equations"].items]
+        and list(again.fields["symbols"].keys) == list(out.fields["symbols"].keys)))
 
 
 # ------------------------------------------------------------------------------------------------ one instance per component
